@@ -163,7 +163,7 @@ def run_plan(plan):
                     dict(datafit=name, exc_type=exc["type"]))
                 continue
             check_value(name, val, truth, draw, "global_sparse",
-                        r2w if name == "WeightedQuadratic" else (1.0 if name == "QuadraticSVC" else r2))
+                        r2w if name == "WeightedQuadratic" else r2)   # sign flips keep the singular values
         env.seed_rng(draw)
         try:
             gl = gq.get_lipschitz_sparse(Xc.data, Xc.indptr, Xc.indices, y)
